@@ -1084,6 +1084,51 @@ def _gen_apgm(rng, cplx, edge):
     return _gen_pgm(rng, cplx, edge, "apgm")
 
 
+def gen_exact(rng, alg):
+    """EXACT-ARITHMETIC stream: small-integer / dyadic data and power-of-two parameters chosen so that every operation of
+    the first steps (matrix products, soft thresholds, clipping, scalings) is exact in binary64 on both sides - the states
+    are then compared bit for bit (no tolerance).  Classes: ladmm, padmm, pdhg (linear C), pgm (base step size)."""
+    n = int(rng.integers(2, 5))
+    xs = [n]
+    imat = lambda m_, n_: {"t": "mat", "M": rng.integers(-2, 3, size=(m_, n_)).astype(float).tolist()}  # noqa: E731
+    op = lambda: _pick(rng, [imat(int(rng.integers(1, 4)), n), {"t": "id"}, {"t": "fd", "axes": 0, "circular": True, "append": None},  # noqa: E731
+                             {"t": "sid", "s": _pick(rng, [2.0, -1.0, 0.5])}])
+    fn = lambda: _pick(rng, [{"k": "l1", "w": _pick(rng, [0.5, 1.0, 2.0, 0.25])}, {"k": "nonneg"}, {"k": "zero"}])  # noqa: E731
+    dy3 = lambda sh: (rng.integers(-8, 9, size=sh) / 4.0).tolist()  # noqa: E731
+    p2 = lambda ks: float(2.0 ** int(_pick(rng, ks)))  # noqa: E731
+    if alg == "ladmm":
+        C = op()
+        return {"alg": "ladmm", "cplx": False, "xshape": xs, "C": C, "f": fn(), "g": fn(), "mu": p2([-3, -2, -4]), "nu": p2([0, 1, -1]),
+                "x0": dy3((n,)), "exact": True}
+    if alg == "padmm":
+        A = op()
+        _, ush = op_dense(A, xs)
+        r = {"alg": "padmm", "cplx": False, "xshape": xs, "A": A, "B": None, "c": None, "exact": True}
+        zsh = ush
+        if len(ush) == 1 and rng.integers(0, 2):
+            zn = int(rng.integers(1, 4))
+            r["B"], r["zshape"], zsh = imat(ush[0], zn), [zn], (zn,)
+            r["c"] = dy3((ush[0],))
+        r.update({"f": fn(), "g": fn(), "rho": p2([0, 1, -1]), "mu": p2([2, 3, 4]), "nu": p2([2, 3, 4]), "fast": True,
+                  "x0": dy3((n,)), "z0": dy3((size_of(zsh),)), "u0": dy3((size_of(ush),))})
+        return r
+    if alg == "pdhg":
+        C = op()
+        _, zsh = op_dense(C, xs)
+        # conj_prox(v, s) = v - s prox(v/s, 1/s): exact for these functionals and power-of-two s
+        return {"alg": "pdhg", "cplx": False, "xshape": xs, "C": C, "nl": None, "f": fn(), "g": fn(), "tau": p2([-2, -3, -1]),
+                "sigma": p2([-2, -3, -1]), "alpha": _pick(rng, [1.0, 0.0, 0.5]), "x0": dy3((n,)), "z0": dy3((size_of(zsh),)),
+                "exact": True}
+    if alg == "pgm":
+        A = _pick(rng, [imat(int(rng.integers(1, 4)), n), None])
+        m = n if A is None else len(A["M"])
+        f = {"k": "sqloss", "s": _pick(rng, [0.5, 1.0]), "A": A, "yshape": [m], "y": dy3((m,))}
+        return {"alg": "pgm", "cplx": False, "xshape": xs, "f": f, "g": fn(), "L0": p2([3, 4, 5]), "x0": dy3((n,)),
+                "pol": {"kind": "base", "real": True}, "exact": True}
+    raise Infra("exact stream: " + alg)
+
+
+EXACT_ALGS = ["ladmm", "padmm", "pdhg", "pgm"]
 ALGS = ["admm", "ladmm", "padmm", "nlpadmm", "pdhg", "pgm", "apgm"]
 
 
